@@ -90,7 +90,9 @@ var keyIDs = []string{"k1", "k2", "k3", "signing-key_4", "K-5"}
 var svcIDs = []string{"s1", "s2", "hub_3", "S-4"}
 var akaURIs = []string{"https://example.com/a", "did:web:example.org", "urn:uuid:1234", "https://xn--bcher-kva.example/päth", "mailto:a@b.example",
 	// different strings that a URL normaliser would identify with an entry above (the set semantics are on strings)
-	"HTTPS://example.com/a", "https://example.com/a#", "https://xn--bcher-kva.example/p%C3%A4th", "https://example.com/a?"}
+	"HTTPS://example.com/a", "https://example.com/a#", "https://xn--bcher-kva.example/p%C3%A4th", "https://example.com/a?",
+	// a query string: characters that HTML-safe JSON encoders escape
+	"https://example.com/q?a=1&b=2"}
 
 type docKeyKind struct {
 	typ      string
